@@ -122,6 +122,18 @@ def gen_recv_sequence(cfg: gen.Config, proto, rng: random.Random, ctx) -> list[t
         else:
             seq.append((b"", ("?",)))
             ctx.count("empty_payloads")
+    if cfg.inner_pickle or cfg.name.startswith("picklefile"):
+        # pickle's own documented unsafety, not the library's: a malformed datagram may be a resource bomb for the C unpickler
+        # (memo opcodes with huge indices, huge length prefixes): gigabytes / minutes before any library code decides anything;
+        # a worker was killed by the kernel that way in a thorough run. Same lexical screen as C06; screened datagrams are dropped.
+        from checks.c06 import _maybe_unwrap, _pickle_resource_bomb
+
+        kept = [(d, e) for d, e in seq if e[0] == "P" or not _pickle_resource_bomb(_maybe_unwrap(cfg, d))]
+        if len(kept) != len(seq):
+            ctx.count("skipped_pickle_resource_bombs", len(seq) - len(kept))
+            # a dropped first half of a truncated pair would orphan its tail: keep the pairing simple by dropping '?T' tails too
+            kept = [(d, e) for d, e in kept if e[0] != "?T"]
+        seq = kept
     return seq
 
 
@@ -398,7 +410,7 @@ def run_big_datagrams(ctx, rng: random.Random) -> str | None:
 
 
 def plan(tier: str, seed: int) -> list[dict]:
-    n = 3 if tier == "quick" else 400
+    n = 3 if tier == "quick" else 200
     return [{"seed": seed * 1000 + k, "iters": n} for k in range(16)]
 
 
